@@ -46,9 +46,10 @@ Fixpoint int_digits (neg : bool) (lo hi : Z) (bs : list N) (acc : Z) (any : bool
   end.
 Definition pint (lo hi : Z) (bs : list N) : pres Z :=
   match bs with
-  | 43 :: r => int_digits false lo hi r 0 false
-  | 45 :: r => int_digits true lo hi r 0 false
-  | _ => int_digits false lo hi bs 0 false
+  | c :: r => if c =? 43 then int_digits false lo hi r 0 false
+              else if c =? 45 then int_digits true lo hi r 0 false
+              else int_digits false lo hi bs 0 false
+  | [] => int_digits false lo hi bs 0 false
   end.
 Definition pi32 := pint (-2147483648) 2147483647.
 Definition pi64 := pint (- two63) (two63 - 1).
